@@ -156,6 +156,8 @@ def meaning_decl(m):
         return struct_decl(m["c"])
     if t == "tup":         # documented: Tuple[X, Y] = a tuple of exactly that shape
         return {"k": "tuplePos", "items": [meaning_decl(m["x"]), meaning_decl(m["y"])]}
+    if t == "tri":         # documented: "c is a tuple of 3: integer, string, float: Tuple[Integer, String, Float]"
+        return {"k": "tuplePos", "items": [meaning_decl(m["x"]), meaning_decl(m["y"]), meaning_decl(m["z"])]}
     raise ValueError(t)
 
 
@@ -221,7 +223,9 @@ def gen_meaning(rng, dg, depth, allow_opt=True):
         return {"m": "coll", "c": c, "x": x}
     if r < 0.56:
         return {"m": "tup", "x": gen_meaning(rng, dg, depth - 1), "y": gen_meaning(rng, dg, depth - 1)}
-    if r < 0.6:        # `X | 529`, `X | "abc"`: a literal alternative
+    if r < 0.58:
+        return {"m": "tri", "x": gen_meaning(rng, dg, depth - 1), "y": gen_meaning(rng, dg, 0), "z": gen_meaning(rng, dg, 0)}
+    if r < 0.62:        # `X | 529`, `X | "abc"`: a literal alternative
         x = gen_meaning(rng, dg, depth - 1, allow_opt=False)
         return {"m": "altlit", "x": x, "v": rng.choice([529, 0, -3, "abc", "", True, gen.fl(gen.Fraction(5, 2))])}
     if r < 0.72:
@@ -261,7 +265,7 @@ def gen_meaning(rng, dg, depth, allow_opt=True):
 def is_field_expr(sp):
     s = sp["s"]
     if s in ("fcls", "finst", "lit", "bareCls", "bareInst", "sub", "call", "mapBare", "mapInst", "mapSub", "mapCall",
-             "anyOf", "tupSub", "tupCall"):
+             "anyOf", "tupSub", "tupCall", "triSub", "triCall"):
         return True
     if s in ("pipe", "pipeLit"):
         return is_field_expr(sp["x"])
@@ -289,7 +293,7 @@ def ev_kind(sp):
         return "field_cls"
     if is_field_expr(sp):
         return "field_inst"
-    if s in ("builtin", "bareBuiltin", "dictBare", "pep585", "dict585", "scls", "tup585"):
+    if s in ("builtin", "bareBuiltin", "dictBare", "pep585", "dict585", "scls", "tup585", "tri585"):
         return "plain"          # (a Structure class has no `|` of its own: type.__or__)
     if s in ("pipe", "union") and same_type_obj(sp["x"], sp["y"]):
         return ev_kind(sp["x"])          # `Union[bool, bool]` / `bool | bool` IS `bool`
@@ -388,6 +392,15 @@ def spell(m, rng, style):
             if not (is_field_or_struct(x) and is_field_or_struct(y)):
                 form = "mapSub"
         return {"s": form, "x": x, "y": y}
+    if t == "tri":
+        form = {"native": "triSub", "builtin": "tri585", "typing": "triTyping", "call": "triCall", "inst": "triSub",
+                "pep604": "tri585"}[st]
+        xs = [spell(m[k], rng, style) for k in ("x", "y", "z")]
+        if form == "triCall" and not all(is_field_or_struct(x) for x in xs):
+            xs = [spell(m[k], rng, rng.choice(["native", "call", "inst"])) for k in ("x", "y", "z")]
+            if not all(is_field_or_struct(x) for x in xs):
+                form = "triSub"
+        return {"s": form, "x": xs[0], "y": xs[1], "z": xs[2]}
     if t == "altlit":
         # the left operand must be a Field (class or instance) for `|` with a plain value to be defined
         x = spell(m["x"], rng, style)
@@ -542,6 +555,14 @@ def render(sp, default=None):
         return f"Tuple[{render(sp['x'])}, {render(sp['y'])}]"
     if s == "tupCall":
         return f"Tuple(items=[{render(sp['x'])}, {render(sp['y'])}]{', ' + kw if kw else ''})"
+    if s == "tri585":
+        return f"tuple[{render(sp['x'])}, {render(sp['y'])}, {render(sp['z'])}]"
+    if s == "triTyping":
+        return f"typing.Tuple[{render(sp['x'])}, {render(sp['y'])}, {render(sp['z'])}]"
+    if s == "triSub":
+        return f"Tuple[{render(sp['x'])}, {render(sp['y'])}, {render(sp['z'])}]"
+    if s == "triCall":
+        return f"Tuple(items=[{render(sp['x'])}, {render(sp['y'])}, {render(sp['z'])}]{', ' + kw if kw else ''})"
     raise ValueError(s)
 
 
@@ -549,13 +570,13 @@ def fill_lens(sp, default=None):
     """set the source length of every `lit` leaf (the top one includes a `default=` keyword)"""
     if sp["s"] == "lit":
         sp["len"] = len(lit_source(sp["d"], default))
-    for k in ("x", "y"):
+    for k in ("x", "y", "z"):
         if k in sp:
             fill_lens(sp[k])
     return sp
 
 
-KW_ALLOWED = ("finst", "lit", "bareInst", "call", "mapCall", "mapInst", "tupCall")
+KW_ALLOWED = ("finst", "lit", "bareInst", "call", "mapCall", "mapInst", "tupCall", "triCall")
 
 
 def dflt_text(dflt):
@@ -650,7 +671,7 @@ def variant_source(v):
 
 def _walk(sp):
     yield sp
-    for k in ("x", "y"):
+    for k in ("x", "y", "z"):
         if k in sp:
             yield from _walk(sp[k])
 
@@ -681,7 +702,7 @@ def features(v, f, ann_len):
         plain_pipe = n["s"] == "pipe" and not is_field_expr(n["x"])
         if (n["s"] == "union" or plain_pipe) and same_type_obj(n["x"], n["y"]):
             out.append("typing-union-duplicate")     # `Union[int, int]` / `int | int` is just `int`
-        if (n["s"] in ("optional", "union") or plain_pipe) and any(union_like(n[k]) for k in ("x", "y") if k in n):
+        if (n["s"] in ("optional", "union") or plain_pipe) and any(union_like(n[k]) for k in ("x", "y") if k in n and n["s"] in ("optional", "union", "pipe")):
             out.append("typing-union-flattened")
         # `Array[Owner | None]`, `AnyOf[Owner | int, X]`: a Structure-first PEP 604 union as argument of a typedpy field
         # (was the finding pep604-structure-first-nested, fixed in typedpy: no longer a known divergence)
@@ -707,6 +728,8 @@ def documented(f):
         if n["s"] == "call" and not is_field_or_struct(n["x"]):
             return False
         if n["s"] in ("mapCall", "tupCall") and not (is_field_or_struct(n["x"]) and is_field_or_struct(n["y"])):
+            return False
+        if n["s"] == "triCall" and not all(is_field_or_struct(n[k]) for k in ("x", "y", "z")):
             return False
         if n["s"] == "none":
             pass
@@ -1130,6 +1153,7 @@ def struct_model_cases(rng, tier):
             {"m": "tup", "x": {"m": "coll", "c": "list", "x": int_}, "y": {"m": "opt", "x": str_}},
             {"m": "opt", "x": {"m": "coll", "c": "list", "x": own()}}, {"m": "opt", "x": {"m": "tup", "x": int_, "y": str_}}]
     must.append({"m": "coll", "c": "list", "x": {"m": "opt", "x": own()}})
+    must.append({"m": "tri", "x": int_, "y": str_, "z": rng.choice([{"m": "scalar", "k": "float"}, own()])})
     picks = must + (pool if tier != "quick" else rng.sample(pool, 3))
     other = {"m": "scalar", "k": rng.choice(["str", "int"])}
     none = {"s": "none"}
@@ -1585,10 +1609,14 @@ def run_variant(v, kws, ctx, probe_kw=None):
                 r["ser_err"] = type(e).__name__
             beh.append(r)
         res["beh"] = beh
-        try:
-            res["schema"] = json.dumps(structure_to_schema(cls), sort_keys=True, default=repr)
-        except Exception as e:  # pylint: disable=broad-except
-            res["schema"] = "raised " + err_name(e)
+        if not ffields:      # (the schema shows a product of a stateful default factory: differs from call to call by design)
+            try:
+                defs = {}
+                sch = structure_to_schema(cls, defs)
+                res["schema"] = json.dumps([sch, defs], sort_keys=True, default=repr)
+            except Exception as e:  # pylint: disable=broad-except
+                # (which field's mapper refuses first depends on the definition order: only "it raises" is compared)
+                res["schema"] = "raised " + (err_name(e) if len(v["fields"]) == 1 else "")
     finally:
         sys.modules.pop(modname, None)
     return res
@@ -1701,8 +1729,9 @@ def site(feats, phenomenon=None):
     return "plain"
 
 
-def compare_variants(a, b):
-    """phenomenon in which two variants' observable behaviour differs, or None"""
+def compare_variants(a, b, same_decl=False):
+    """phenomenon in which two variants' observable behaviour differs, or None; `same_decl`: the model elaborates both
+    to the SAME class declaration (then the exported schema must be the same as well: theorem same_schema)"""
     if ("def_err" in a) != ("def_err" in b):
         return "definition-error", f"one spelling raises {a.get('def_err') or b.get('def_err')} at class definition, the other defines the class"
     if "def_err" in a:
@@ -1733,7 +1762,7 @@ def compare_variants(a, b):
             else:
                 ph = "deserialization-differs"
             return ph, f"kwargs #{j}: {json.dumps(x)[:200]} vs {json.dumps(y)[:200]}"
-    if a.get("schema") != b.get("schema"):
+    if same_decl and a.get("schema") != b.get("schema"):
         return "schema-differs", f"structure_to_schema: {str(a.get('schema'))[:220]} vs {str(b.get('schema'))[:220]}"
     if ("undumpable" in a) != ("undumpable" in b):      # same behaviour on the stream, but not the same kind of field
         return "field-kind-differs", f"{a.get('undumpable') or b.get('undumpable')}"
@@ -1754,7 +1783,9 @@ def oracle(case, impl, model):
         srcs = (json.dumps([field_source(f)[0] for f in v["fields"]]) + (" [future]" if v["future"] else "")
                 + (f" [in {v['scope']} scope]" if v.get("scope", "module") != "module" else ""))
         if i > 0:
-            diff = compare_variants(ref, iv)
+            m0, mi = model["variants"][0]["cls"], mv["cls"]
+            same_decl = "ok" in m0 and "ok" in mi and norm_model_cls(m0["ok"]) == norm_model_cls(mi["ok"])
+            diff = compare_variants(ref, iv, same_decl)
             if diff and diff[0] == "definition-error-class" and (
                     site(feats + ref_feats) != "plain"
                     or sum(1 for mf in model["variants"][0]["fields"] if "err" in mf["res"]) != 1):
@@ -1836,7 +1867,7 @@ def tags(case, impl, model):
 
 
 def depth_of(m):
-    return 1 + max([depth_of(m[k]) for k in ("x", "y") if k in m] or [0])
+    return 1 + max([depth_of(m[k]) for k in ("x", "y", "z") if k in m] or [0])
 
 
 def nontrivial(case):
